@@ -1,39 +1,76 @@
 (* C15  infer edits only the placeholder account.
-   Theorem statements only.  Model: Model/Bayes.v -- [infer_with ph v letter digit choose training
-   target] is `knut infer -a ph -t TRAINING TARGET` (stdout) on the bytes of the two files;
-   [v = Orig] is bayes.go as found, [v = Fixed] the repaired code of findings/C15-infer.patch;
-   [choose k cands] is the k-th call of inferAccount: the score (floating point) is NOT
-   modelled, every theorem holds for EVERY choice function that returns an element of the
-   candidate list and returns one whenever the list is not empty ([valid_choose]).
+   Theorem statements only.
+
+   THE CODE WAS REPAIRED (/repo e8bd689 "fix: infer must leave a booking alone when there is no
+   candidate, and choose deterministically"; finding F10, findings/C15-infer.md).  The model
+   follows the repaired code: variant [Fixed] of Model/Bayes.v is THE model of `knut infer`, it is
+   what the check runs against the binary, and every theorem below that is not named *_refuted
+   is about it.  Variant [Orig] (bayes.go before e8bd689) survives only in the three *_refuted
+   theorems, which record what was wrong.
+
+   Models.
+   * Model/Bayes.v -- [infer_with ph Fixed letter digit choose training target] is
+     `knut infer -a ph -t TRAINING TARGET` (stdout) on the bytes of the two files, with the
+     outcome of the k-th call of inferAccount given by [choose k cands].  The theorems hold for
+     EVERY choice function that returns an element of the candidate list and returns one
+     whenever the list is not empty ([valid_choose]).  This is the function the check compares
+     byte for byte with the binary (the binary's own choices are passed as [choose]).
+   * Model/BayesScore.v -- [infer_scored F flog fadd fgt fields lower ph letter digit training
+     target]: the same command with the choice MODELLED as the Go code makes it: the counts of
+     Model.Update, tokenize, scoreCandidate summing over the tokens in sorted order, and the
+     loop of inferAccount over the sorted candidates with `!found || score > max`.  Abstract are
+     only the float64 operations (flog a b = math.Log(float64(a)/float64(b)), fadd, fgt) and
+     strings.Fields / strings.ToLower; nothing is assumed about them.
+     C15_scored_is_infer_with: infer_scored = infer_with ph Fixed ... choose for a valid choose.
    Meanings and gaps: Spec/FormatSpec.v; relations: Proofs/InferProofs.v
      side_rel ph v cands acc acc' other : acc' = acc if acc is not the placeholder; otherwise
         acc' is a candidate different from [other] (Macro = false), or there is no such
         candidate and acc' is acc (Fixed) resp. the EMPTY account (Orig);
      booking_rel: quantity and commodity kept, credit side related with other = the debit
-        account, debit side related with other = the credit account -- as it was (Orig) resp.
-        as it is after inference (Fixed);
+        account, debit side related with other = the credit account as it is after inference
+        (Fixed) resp. as it was (Orig);
      directive_rel: everything but booking accounts kept.
    The executable specification Spec/InferSpec.v infer_ok_b is evaluated by the check on the
-   binary's output.
+   binary's output; C15_roundtrip / C15_infer_correct prove it of the PARSE OF THE MODEL'S OUTPUT.
 
-   Relation to the property text:
-     "changes nothing except occurrences of the placeholder"      C15_only_placeholder, C15_rest_is_format,
+   Relation to the property text (all at full strength for the repaired code):
+     "changes nothing except occurrences of the placeholder"      C15_only_placeholder, C15_roundtrip,
                                                                    C15_without_placeholder_is_format
      "replaced by an account that occurs in the training journal
-      and differs from the other account of the same booking"      C15_candidate_valid, C15_candidates_from_training;
-                                                                   Orig: C15_differs_refuted (both sides placeholder)
-     "no such candidate: the booking is left unchanged"            Fixed: C15_no_candidate_unchanged; Orig: refuted
-     "the result parses"                                           Orig: C15_parses_refuted.  For Fixed this is
-          C15_parses : ... infer_with ph Fixed ... = InferOut out -> exists f, parse_text out = ParseOk f
-          NOT proved: it needs C08's round trip (see Properties/C08.v) for the substituted meaning; checked on
-          every generated case on the binary's output.
-     "the choice is the same on every run"                         not a property of a function: the model has no
-          map order; C15_deterministic_given_scores shows that "first maximum of the sorted candidates" for any
-          comparison is a valid choice function; the binary is run 10 times per case by the check.          *)
-From Coq Require Import String ZArith List Bool.
+      and differs from the other account of the same booking"      C15_candidate_valid, C15_candidates_from_training,
+                                                                   C15_fixed_meets_spec;  Orig: C15_differs_refuted
+     "no such candidate: the booking is left unchanged"            C15_no_candidate_unchanged;  Orig: ..._refuted
+     "the result parses"                                           C15_parses, C15_parses_unicode, and more:
+          C15_roundtrip -- the parse of the output has exactly the inferred meaning (the target's with the
+          placeholder sides substituted; infer_ok_b holds of it) and the target's gaps, and the output is in
+          formatted form.  Uses C08's round trip machinery (Proofs/RoundTrip*.v): a candidate is an account
+          text of the training file's parse, hence lexically an account, so the substituted meaning is
+          lexically valid and its rendering parses back to it (Proofs/InferRoundTrip.v).  Needs [class_ok]
+          like C08 (true of Go's unicode tables: the *_unicode versions have no hypothesis).
+          C15_total: on files that parse the command prints a text (no failure, never stuck).
+          Orig: C15_parses_refuted.
+     "apart from those account names and the column alignment
+      they imply, identical to the formatted input"                C15_rest_is_format (total; both texts parse, same
+          gaps, meanings related by directive_rel, both are [render] of meaning and gaps, both are fixed points
+          of format), C15_render_shape
+     running infer on its own output changes nothing              C15_idempotent (no condition: a placeholder the
+          first run left has no candidate in the second run either)
+     "the choice is the same on every run"                         the choice is modelled (Model/BayesScore.v):
+          C15_choice_first_max -- the winner is the first maximum of the sorted candidates (beats everything
+          before it, nothing after it beats it; unique for a strict weak order: C15_first_max_unique);
+          C15_choice_invariant -- it is a function of the MULTISET of training events, the SET of tokens and the
+          SET of map keys: independent of the order in which Go enumerates its maps and sets;
+          C15_training_order_irrelevant -- permuting the training transactions does not change the output;
+          C15_infer_correct -- the whole property for the command with its real choice.
+          Not modelled: IEEE arithmetic itself (the proofs hold for any flog/fadd/fgt).  The check runs the
+          extracted infer_scored_sems with OCaml doubles and a transcription of Go's math.Log and requires every
+          choice of the binary to be the model's (drv_c15.ml, verdict choice-differs-from-model); that the binary
+          computes the same float64 values on every run is a fact about the Go runtime, sampled by 10 runs.      *)
+From Coq Require Import String ZArith List Bool Permutation Lia.
 From Knut Require Import Model.Bytes Model.Utf8 Model.UnicodeTables Model.Scanner Model.Parser
   Model.SynPrinter Spec.SyntaxSpec Proofs.ScannerProofs Proofs.ParserProofs Spec.FormatSpec
-  Model.SynRender Proofs.FormatProofs Model.Bayes Spec.InferSpec Proofs.InferProofs.
+  Model.SynRender Proofs.FormatProofs Model.Bayes Model.BayesScore Spec.InferSpec Proofs.InferProofs
+  Proofs.RoundTripLeaf Proofs.RoundTripTop Proofs.InferRoundTrip Proofs.InferChoice.
 Import ListNotations.
 Open Scope Z_scope.
 
@@ -82,15 +119,110 @@ Proof. exact fixed_meets_spec. Qed.
 Print Assumptions C15_fixed_meets_spec.
 
 (* The printed text is the target's gaps interleaved with the rendering of the inferred
-   meanings -- the very function that `format` is of meanings and gaps (C08_format_shape). *)
-Theorem C15_rest_is_format : forall ph v letter digit choose training target out,
+   meanings -- the very function that `format` is of meanings and gaps (C08_format_shape).
+   (Both variants.) *)
+Theorem C15_render_shape : forall ph v letter digit choose training target out,
   infer_with ph v letter digit choose training target = InferOut out ->
   exists ftr ftg sems k,
     parse_text letter digit training = ParseOk ftr /\ parse_text letter digit target = ParseOk ftg /\
     infer_sems ph v choose (candidates ph (sem training ftr)) 0%nat (sem target ftg) = (sems, k) /\
     render Utf8M.decode sems (gaps target ftg) = Some out.
 Proof. exact infer_with_shape. Qed.
+Print Assumptions C15_render_shape.
+
+(* ---- the result parses: the round trip ---- *)
+
+Theorem C15_parses : forall ph letter digit choose training target out,
+  class_ok letter digit -> valid_choose choose ->
+  infer_with ph Fixed letter digit choose training target = InferOut out ->
+  exists f, parse_text letter digit out = ParseOk f.
+Proof. intros ph letter digit choose training target out Hc. exact (infer_parses ph letter digit Hc choose training target out). Qed.
+Print Assumptions C15_parses.
+
+(* The printed text parses; the meaning of the parse is the inferred meaning of the target: it
+   is related to the target's meaning directive by directive by directive_rel and satisfies
+   the executable statement of the property; the gaps of the parse are the target's gaps; the
+   text is in formatted form. *)
+Theorem C15_roundtrip : forall ph letter digit choose training target out,
+  class_ok letter digit -> valid_choose choose ->
+  infer_with ph Fixed letter digit choose training target = InferOut out ->
+  exists ftr ftg f' k,
+    parse_text letter digit training = ParseOk ftr /\ parse_text letter digit target = ParseOk ftg /\
+    parse_text letter digit out = ParseOk f' /\
+    infer_sems ph Fixed choose (candidates ph (sem training ftr)) 0%nat (sem target ftg) = (sem out f', k) /\
+    Forall2 (directive_rel ph Fixed (candidates ph (sem training ftr))) (sem target ftg) (sem out f') /\
+    infer_ok_b ph (sem training ftr) (sem target ftg) (sem out f') = true /\
+    gaps out f' = gaps target ftg /\
+    format_text letter digit out f' = FOk out.
+Proof.
+  intros ph letter digit choose training target out Hcls Hch H.
+  destruct (infer_roundtrip ph letter digit Hcls choose training target out Hch H)
+    as (ftr & ftg & f' & k & H1 & H2 & H3 & H4 & H5 & H6).
+  exists ftr, ftg, f', k. repeat (split; [assumption|]).
+  split; [exact (infer_sems_rel ph Fixed choose Hch _ _ _ _ _ H4)|].
+  split; [exact (fixed_meets_spec ph _ choose _ _ _ _ Hch H4)|]. split; assumption.
+Qed.
+Print Assumptions C15_roundtrip.
+
+(* for the real parser (Go's unicode.IsLetter / IsDigit) without any hypothesis on the classes *)
+Theorem C15_parses_unicode : forall ph choose training target out,
+  valid_choose choose ->
+  infer_with ph Fixed is_letter is_digit choose training target = InferOut out ->
+  exists f', parse_text is_letter is_digit out = ParseOk f' /\
+    (forall ftr ftg, parse_text is_letter is_digit training = ParseOk ftr ->
+                     parse_text is_letter is_digit target = ParseOk ftg ->
+       infer_ok_b ph (sem training ftr) (sem target ftg) (sem out f') = true /\ gaps out f' = gaps target ftg).
+Proof.
+  intros ph choose training target out Hch H.
+  destruct (C15_roundtrip ph is_letter is_digit choose training target out unicode_class_ok Hch H)
+    as (ftr & ftg & f' & k & H1 & H2 & H3 & _ & _ & H6 & H7 & _).
+  exists f'. split; [assumption|]. intros ftr' ftg' E1 E2.
+  assert (ftr' = ftr) by congruence. assert (ftg' = ftg) by congruence. subst. split; assumption.
+Qed.
+Print Assumptions C15_parses_unicode.
+
+(* On files that parse, the repaired command prints a text: it does not fail and is never stuck
+   (InferBad is impossible; InferErr only when a file does not parse: infer_with_total). *)
+Theorem C15_total : forall ph letter digit choose training target ftr ftg,
+  valid_choose choose ->
+  parse_text letter digit training = ParseOk ftr -> parse_text letter digit target = ParseOk ftg ->
+  exists out, infer_with ph Fixed letter digit choose training target = InferOut out.
+Proof. exact infer_total. Qed.
+Print Assumptions C15_total.
+
+(* "apart from those account names and the column alignment they imply, identical to the
+   formatted input": on files that parse, `knut infer` prints [out] and `knut format` prints
+   [fmt] for the target; both parse, to THE SAME GAPS (all text outside directives, byte for
+   byte) and to meanings related one by one by directive_rel (only placeholder sides differ);
+   both are the rendering, by the same function, of their meaning and these gaps; both are in
+   formatted form. *)
+Theorem C15_rest_is_format : forall ph letter digit,
+  class_ok letter digit -> forall choose training target ftr ftg,
+  valid_choose choose ->
+  parse_text letter digit training = ParseOk ftr -> parse_text letter digit target = ParseOk ftg ->
+  exists out fmt f' ff,
+    infer_with ph Fixed letter digit choose training target = InferOut out /\
+    format_text letter digit target ftg = FOk fmt /\
+    parse_text letter digit out = ParseOk f' /\ parse_text letter digit fmt = ParseOk ff /\
+    sem fmt ff = sem target ftg /\
+    Forall2 (directive_rel ph Fixed (candidates ph (sem training ftr))) (sem target ftg) (sem out f') /\
+    gaps out f' = gaps target ftg /\ gaps fmt ff = gaps target ftg /\
+    render Utf8M.decode (sem out f') (gaps target ftg) = Some out /\
+    render Utf8M.decode (sem target ftg) (gaps target ftg) = Some fmt /\
+    format_text letter digit out f' = FOk out /\ format_text letter digit fmt ff = FOk fmt.
+Proof. exact infer_rest_is_format. Qed.
 Print Assumptions C15_rest_is_format.
+
+(* Idempotence: running infer on its own output with the same training file prints the same
+   text again, whatever the (valid) choice function of the second run -- also when placeholders
+   are left: a placeholder the first run left has no candidate in the second run either. *)
+Theorem C15_idempotent : forall ph letter digit,
+  class_ok letter digit -> forall choose choose' training target out,
+  valid_choose choose -> valid_choose choose' ->
+  infer_with ph Fixed letter digit choose training target = InferOut out ->
+  infer_with ph Fixed letter digit choose' training out = InferOut out.
+Proof. exact infer_idempotent. Qed.
+Print Assumptions C15_idempotent.
 
 (* A target without the placeholder: infer prints exactly the formatted target. *)
 Theorem C15_without_placeholder_is_format : forall ph v letter digit choose training target ftr ftg,
@@ -101,14 +233,107 @@ Theorem C15_without_placeholder_is_format : forall ph v letter digit choose trai
 Proof. exact infer_without_placeholder. Qed.
 Print Assumptions C15_without_placeholder_is_format.
 
+(* ---- "the choice is the same on every run": the choice of the repaired code ---- *)
+
 (* "First maximum over the sorted candidate list" is a valid choice function for any
-   comparison of scores: with it the model is a deterministic function of the two files. *)
+   comparison of scores. *)
 Theorem C15_deterministic_given_scores : forall gt : str -> str -> bool,
   valid_choose (fun _ => first_max gt).
 Proof. exact first_max_valid. Qed.
 Print Assumptions C15_deterministic_given_scores.
 
-(* ---- the code as found: refutations by witnesses (findings/C15-infer.md) ---- *)
+(* inferAccount as modelled after the Go code is this first maximum, for the comparison of the
+   scores of scoreCandidate, and a valid choice *)
+Theorem C15_choice_valid : forall F flog fadd fgt fields lower evs,
+  pick_valid (infer_account F flog fadd fgt fields lower evs) /\
+  forall desc b other l,
+    infer_account F flog fadd fgt fields lower evs desc b other l =
+    first_max (fun c best => fgt (score F flog fadd evs (tokenize fields lower desc b other) c)
+                                 (score F flog fadd evs (tokenize fields lower desc b other) best)) l.
+Proof.
+  intros. split; [apply infer_account_valid|]. intros. apply infer_account_first_max.
+Qed.
+Print Assumptions C15_choice_valid.
+
+(* The tie-break, exactly: if `>` on scores is transitive and a > b implies a > c or c > b
+   (every strict weak order, e.g. `>` on float64 without NaN -- the scores are finite sums of
+   logarithms of positive ratios), the winner [c] of the loop over [l] splits the list,
+   l = l1 ++ c :: l2, beats every candidate in l1 and is not beaten by any in l2: among the
+   candidates with the maximal score it is the first, i.e. the byte-wise smallest, [l] being
+   sorted. *)
+Theorem C15_choice_first_max : forall (F : Type) (fgt : F -> F -> bool) (sc : str -> F),
+  (forall a b c, fgt a b = true -> fgt b c = true -> fgt a c = true) ->
+  (forall a b c, fgt a b = true -> fgt a c = true \/ fgt c b = true) ->
+  forall l c, option_map fst (best_loop F fgt sc l None) = Some c -> first_max_spec F fgt sc l c.
+Proof. exact best_loop_spec. Qed.
+Print Assumptions C15_choice_first_max.
+
+(* and that determines it (the candidate list has no duplicates: C15_candidates_sorted) *)
+Theorem C15_first_max_unique : forall (F : Type) (fgt : F -> F -> bool) (sc : str -> F),
+  (forall a b c, fgt a b = true -> fgt b c = true -> fgt a c = true) ->
+  (forall a, fgt a a = false) ->
+  forall l c c', NoDup l -> first_max_spec F fgt sc l c -> first_max_spec F fgt sc l c' -> c = c'.
+Proof. exact first_max_unique. Qed.
+Print Assumptions C15_first_max_unique.
+
+(* THE CHOICE IS A FUNCTION OF THE MULTISET OF TRAINING EVENTS, THE SET OF TOKENS AND THE SET OF
+   KEYS of countByAccount: whatever order the Go runtime enumerates the maps and the token set
+   in ([t1]/[t2], [k1]/[k2] are two enumerations), and in whatever order the events arrived. *)
+Theorem C15_choice_invariant : forall F flog fadd fgt evs1 evs2 t1 t2 k1 k2 other,
+  Permutation evs1 evs2 -> (forall x, In x t1 <-> In x t2) -> (forall x, In x k1 <-> In x k2) ->
+  choice F flog fadd fgt evs1 t1 k1 other = choice F flog fadd fgt evs2 t2 k2 other.
+Proof. exact choice_invariant. Qed.
+Print Assumptions C15_choice_invariant.
+
+(* [choice] is what Model.Infer calls *)
+Theorem C15_choice_is_infer_account : forall F flog fadd fgt fields lower evs desc b other,
+  infer_account F flog fadd fgt fields lower evs desc b other (without other (candidates_c evs)) =
+  choice F flog fadd fgt evs (tokenize fields lower desc b other) (map fst evs) other.
+Proof. exact infer_account_choice. Qed.
+Print Assumptions C15_choice_is_infer_account.
+
+(* Two training files whose transactions are permutations of each other give the same output. *)
+Theorem C15_training_order_irrelevant : forall F flog fadd fgt fields lower ph letter digit training1 training2 target f1 f2,
+  parse_text letter digit training1 = ParseOk f1 -> parse_text letter digit training2 = ParseOk f2 ->
+  Permutation (sem training1 f1) (sem training2 f2) ->
+  infer_scored F flog fadd fgt fields lower ph letter digit training1 target =
+  infer_scored F flog fadd fgt fields lower ph letter digit training2 target.
+Proof. exact infer_scored_perm. Qed.
+Print Assumptions C15_training_order_irrelevant.
+
+(* The command with the modelled choice is the command of Model/Bayes.v for a valid choice
+   function: everything above holds of it. *)
+Theorem C15_scored_is_infer_with : forall F flog fadd fgt fields lower ph letter digit training target,
+  exists choose, valid_choose choose /\
+    infer_scored F flog fadd fgt fields lower ph letter digit training target =
+    infer_with ph Fixed letter digit choose training target.
+Proof. exact infer_scored_is_infer_with. Qed.
+Print Assumptions C15_scored_is_infer_with.
+
+(* The property for the command as it is (no choice function in sight): on files that parse it
+   prints a text that parses; the meaning of the parse satisfies the executable statement of
+   the property against target and training file; its gaps are the target's; the text is in
+   formatted form; running the command on it prints it again. *)
+Theorem C15_infer_correct : forall F flog fadd fgt fields lower ph letter digit training target ftr ftg,
+  class_ok letter digit ->
+  parse_text letter digit training = ParseOk ftr -> parse_text letter digit target = ParseOk ftg ->
+  exists out f',
+    infer_scored F flog fadd fgt fields lower ph letter digit training target = InferOut out /\
+    parse_text letter digit out = ParseOk f' /\
+    infer_ok_b ph (sem training ftr) (sem target ftg) (sem out f') = true /\
+    gaps out f' = gaps target ftg /\
+    format_text letter digit out f' = FOk out /\
+    infer_scored F flog fadd fgt fields lower ph letter digit training out = InferOut out.
+Proof. exact infer_scored_correct. Qed.
+Print Assumptions C15_infer_correct.
+
+(* the candidate list is strictly sorted (byte-wise), hence duplicate-free *)
+Theorem C15_candidates_sorted : forall ph training,
+  Sorted.StronglySorted InferOrder.bstr_lt (candidates ph training).
+Proof. intros. apply InferOrder.sort_dedup_ssorted. Qed.
+Print Assumptions C15_candidates_sorted.
+
+(* ---- the code before e8bd689 (variant Orig): refutations by witnesses (findings/C15-infer.md) ---- *)
 
 Definition tbd : str := Eval vm_compute in runes_of_string "Expenses:TBD"%string.
 Definition first_choice : nat -> list str -> option str := fun _ l => hd_error l.
@@ -157,7 +382,7 @@ Theorem C15_differs_refuted :
 Proof. do 3 eexists. split; [exact first_choice_valid|]. split; [vm_compute; reflexivity|]. split; [vm_compute; reflexivity|vm_compute; reflexivity]. Qed.
 Print Assumptions C15_differs_refuted.
 
-(* ---- the repaired code on the same witnesses ---- *)
+(* ---- the repaired code (the model) on the same witnesses ---- *)
 
 Example C15_fixed_no_candidate :
   infer_with tbd Fixed is_letter is_digit first_choice w_training0 w_target =
@@ -172,3 +397,54 @@ Example C15_fixed_both_sides :
 A B          1 CHF
 "%string).
 Proof. vm_compute. reflexivity. Qed.
+
+(* ---- the modelled choice, run: integer stand-ins for the float64 operations (the hypotheses
+   of C15_choice_first_max / C15_first_max_unique are satisfiable), the description as one token ---- *)
+
+Definition zlog (a b : Z) : Z := a * 1000 / b.
+Definition one_field (s : str) : list str := [s].
+Definition same (s : str) : str := s.
+
+Example C15_zgt_order :
+  (forall a b c, Z.gtb a b = true -> Z.gtb b c = true -> Z.gtb a c = true) /\
+  (forall a b c, Z.gtb a b = true -> Z.gtb a c = true \/ Z.gtb c b = true) /\
+  (forall a, Z.gtb a a = false).
+Proof.
+  split; [|split].
+  - intros a b c. rewrite !Z.gtb_ltb, !Z.ltb_lt. lia.
+  - intros a b c. rewrite !Z.gtb_ltb, !Z.ltb_lt. lia.
+  - intros a. rewrite Z.gtb_ltb. apply Z.ltb_irrefl.
+Qed.
+
+Example C15_scored_both_sides :
+  infer_scored Z zlog Z.add Z.gtb one_field same tbd is_letter is_digit w_training2 w_both =
+  InferOut (runes_of_string "2020-01-02 ""x""
+A B          1 CHF
+"%string).
+Proof. vm_compute. reflexivity. Qed.
+
+Definition w_tie1 : str := Eval vm_compute in runes_of_string "2020-01-01 ""a""
+B C 1 CHF
+
+2020-01-01 ""a""
+A C 1 CHF
+"%string.
+Definition w_tie2 : str := Eval vm_compute in runes_of_string "2020-01-01 ""a""
+A C 1 CHF
+
+2020-01-01 ""a""
+B C 1 CHF
+"%string.
+Definition w_tie_target : str := Eval vm_compute in runes_of_string "2020-01-02 ""a""
+Expenses:TBD C 1 CHF
+"%string.
+
+(* A and B have equal scores: the byte-wise smaller wins, whatever the order of the training file *)
+Example C15_scored_tie :
+  infer_scored Z zlog Z.add Z.gtb one_field same tbd is_letter is_digit w_tie1 w_tie_target =
+  InferOut (runes_of_string "2020-01-02 ""a""
+A C          1 CHF
+"%string) /\
+  infer_scored Z zlog Z.add Z.gtb one_field same tbd is_letter is_digit w_tie2 w_tie_target =
+  infer_scored Z zlog Z.add Z.gtb one_field same tbd is_letter is_digit w_tie1 w_tie_target.
+Proof. split; vm_compute; reflexivity. Qed.
